@@ -401,6 +401,7 @@ func (r *RowCache) IndexExists(row model.Model) error {
 		return nil
 	}
 	uuid := field.(string)
+	var indexExists *ErrIndexExists
 	for _, indexSpec := range r.indexSpecs {
 		if !indexSpec.isSchemaIndex() {
 			// Given the ordered indexSpecs, we can break here if we reach the
@@ -415,7 +416,14 @@ func (r *RowCache) IndexExists(row model.Model) error {
 		vals := r.indexes[index]
 		existing := vals[val]
 		if !existing.empty() && !existing.equals(newUUIDSet(uuid)) {
-			return NewIndexExistsError(
+			if indexExists != nil {
+				// the error describes the first index that collides and
+				// lists the rows the row collides with on any index: the
+				// caller may have reasons to disregard some of them
+				indexExists.Existing = append(indexExists.Existing, existing.list()...)
+				continue
+			}
+			indexExists = NewIndexExistsError(
 				r.name,
 				val,
 				string(index),
@@ -423,6 +431,9 @@ func (r *RowCache) IndexExists(row model.Model) error {
 				existing.list(),
 			)
 		}
+	}
+	if indexExists != nil {
+		return indexExists
 	}
 	return nil
 }
